@@ -274,6 +274,53 @@ func C03(c *hx.Ctx) {
 			}
 		}
 	}
+	// far distances: grow the window cheaply with long matches, then use distances around
+	// 2^21 (quick) and up to 2^26-1 (thorough): distance slots with direct and align bits
+	for _, far := range c.PickInts([]int{1<<21 + 5}, []int{1<<21 + 5, 1<<24 + 3, 1<<26 - 1}) {
+		enc := ref.NewL2Enc(int64(far) + 4096)
+		ops := []ref.Op{}
+		for i := 0; i < 16; i++ {
+			ops = append(ops, ref.Op{K: ref.OpLit, B: byte(17*i + 3)})
+		}
+		kind := "LRND"
+		produced := 16
+		flush := func() {
+			if err := enc.Add(ref.ChunkSpec{Kind: kind, Props: ref.Props{LC: 3, LP: 0, PB: 2}, Ops: ops}); err != nil {
+				c.Inconclusive("far-distance stream: %v", err)
+			}
+			kind, ops, produced = "L", nil, 0
+		}
+		for len(enc.W.Buf)+produced < far+600 {
+			ops = append(ops, ref.Op{K: ref.OpMatch, Dist: 16, Len: 273})
+			produced += 273
+			if produced > 1<<21-600 {
+				flush()
+			}
+		}
+		flush()
+		avail := int64(len(enc.W.Buf))
+		var tail []ref.Op
+		for _, d := range []int64{int64(far), int64(far) - 1, avail, avail - 1, 1 << 20, 1<<20 + 1, 65536, 65535, 4097, 129, 128, 127} {
+			if d <= avail {
+				tail = append(tail, ref.Op{K: ref.OpMatch, Dist: d, Len: 5}, ref.Op{K: ref.OpLit, B: byte(d)}, ref.Op{K: ref.OpRep1, Len: 3}, ref.Op{K: ref.OpShort})
+			}
+		}
+		ops = tail
+		flush()
+		enc.Add(ref.ChunkSpec{Kind: "EOS"})
+		code := leastDictCode(int64(far) + 4096)
+		file := ref.Serialize([]ref.LStream{ref.BuildStream(4, []ref.BlockSpec{{L2: enc.Out, Content: enc.Pt, DictCode: code}})})
+		if xr := ref.DecodeXZ(file, ref.XZOpts{}); xr.Err != nil || !bytes.Equal(xr.Content, enc.Pt) {
+			c.Inconclusive("trusted base: ref rejects its own far-distance stream: %v", xr.Err)
+			continue
+		}
+		declared, _ := ref.DictSizeOfCode(code)
+		streams = append(streams, stream{fmt.Sprintf("gen/far-distance-%d", far), file, enc.Pt, []int{4096, int(declared)}, true})
+		if len(selfFiles) < 300 && far < 1<<22 {
+			selfFiles = append(selfFiles, file)
+			selfPlain.Write(enc.Pt)
+		}
+	}
 	// the generated streams must also be valid for xz-utils (trusted-base check)
 	if len(selfFiles) > 0 {
 		dir, _ := os.MkdirTemp(c.Scratch, "self")
